@@ -104,59 +104,68 @@ func FormatErrorWithMapper(zodErr *ZodError, mapper func(ZodIssue) string) ZodFo
 	fieldErrors := make(ZodFormattedError)
 	fieldErrors["_errors"] = []string{}
 
-	var processError func(*ZodError)
-	processError = func(ze *ZodError) {
+	var processError func(*ZodError, []any)
+	processError = func(ze *ZodError, prefix []any) {
 		for _, issue := range ze.Issues {
+			// Nested issues carry paths relative to the issue that wraps them.
+			path := issue.Path
+			if len(prefix) > 0 {
+				path = append(slices.Clone(prefix), issue.Path...)
+			}
+
+			// Wrapper issues are reported through their nested issues; a wrapper
+			// without nested issues is reported itself, like any other code.
 			switch issue.Code {
 			case core.InvalidUnion:
-				if !slicex.IsEmpty(issue.Errors) {
-					for _, unionErrors := range issue.Errors {
-						if !slicex.IsEmpty(unionErrors) {
-							processError(&ZodError{Issues: unionErrors, formatter: ze.formatter})
-						}
+				nested := false
+				for _, unionErrors := range issue.Errors {
+					if !slicex.IsEmpty(unionErrors) {
+						nested = true
+						processError(&ZodError{Issues: unionErrors, formatter: ze.formatter}, path)
 					}
+				}
+				if nested {
+					continue
 				}
 			case core.InvalidKey, core.InvalidElement:
 				if !slicex.IsEmpty(issue.Issues) {
-					processError(&ZodError{Issues: issue.Issues, formatter: ze.formatter})
+					processError(&ZodError{Issues: issue.Issues, formatter: ze.formatter}, path)
+					continue
 				}
-			case core.InvalidType, core.InvalidValue, core.InvalidFormat,
-				core.TooBig, core.TooSmall, core.NotMultipleOf,
-				core.UnrecognizedKeys, core.Custom, core.InvalidSchema,
-				core.InvalidDiscriminator, core.IncompatibleTypes, core.MissingRequired,
-				core.TypeConversion, core.NilPointer:
-				if slicex.IsEmpty(issue.Path) {
-					if errors, ok := fieldErrors["_errors"].([]string); ok {
-						fieldErrors["_errors"] = append(errors, mapper(issue))
+			}
+
+			if slicex.IsEmpty(path) {
+				if errors, ok := fieldErrors["_errors"].([]string); ok {
+					fieldErrors["_errors"] = append(errors, mapper(issue))
+				}
+				continue
+			}
+
+			curr := fieldErrors
+			for i, pathEl := range path {
+				key := fmt.Sprintf("%v", pathEl)
+
+				if !mapx.Has(curr, key) {
+					curr[key] = ZodFormattedError{"_errors": []string{}}
+				}
+
+				currMap, ok := curr[key].(ZodFormattedError)
+				if !ok {
+					continue
+				}
+
+				if i == len(path)-1 {
+					if errors, ok := currMap["_errors"].([]string); ok {
+						currMap["_errors"] = append(errors, mapper(issue))
 					}
 				} else {
-					curr := fieldErrors
-					for i, pathEl := range issue.Path {
-						key := fmt.Sprintf("%v", pathEl)
-
-						if !mapx.Has(curr, key) {
-							curr[key] = ZodFormattedError{"_errors": []string{}}
-						}
-
-						currMap, ok := curr[key].(ZodFormattedError)
-						if !ok {
-							continue
-						}
-
-						if i == len(issue.Path)-1 {
-							if errors, ok := currMap["_errors"].([]string); ok {
-								currMap["_errors"] = append(errors, mapper(issue))
-							}
-						} else {
-							curr = currMap
-						}
-					}
+					curr = currMap
 				}
 			}
 		}
 	}
 
-	processError(zodErr)
+	processError(zodErr, nil)
 	return fieldErrors
 }
 
